@@ -257,6 +257,8 @@ pub struct World<A: Flavor> {
     pub live_log: Vec<(Vec<LiveRec>, Vec<LiveRec>, String)>,
     /// a raw rewind left free-list segments above the cursor (open known finding)
     pub stale_list: bool,
+    /// number of releases of the backing store that had happened when the file was marked remove-on-drop
+    pub rod_base: u32,
 }
 
 pub fn base_opts(cfg: &Cfg) -> Options {
@@ -460,9 +462,10 @@ impl<A: Flavor> World<A> {
             crash: None,
             live_log: Vec::new(),
             stale_list: false,
+            rod_base: 0,
         };
         let mut w = w;
-        if w.mode.count_unmount && cfg.backend == Backend::File && cfg.magic % 2 == 1 {
+        if w.mode.count_unmount && cfg.backend == Backend::File && cfg.magic % 4 == 1 {
             w.a().remove_on_drop(true);
             w.remove_on_drop = true;
             w.classes.insert("remove-on-drop");
@@ -508,6 +511,7 @@ impl<A: Flavor> World<A> {
             crash: None,
             live_log: Vec::new(),
             stale_list: false,
+            rod_base: 0,
         };
         w.install_hooks();
         w
@@ -1186,13 +1190,14 @@ impl<A: Flavor> World<A> {
                     wrap_prop, "capacity-exceeds-arena",
                     "{what}({n}) returned capacity {cap} larger than the arena ({})", pre.capacity
                 );
-                // C03: capacity and alignment
+                // C03: capacity and alignment (C04 as well for a huge request: "a handle satisfying C01/C03, or an error")
+                let c03: &'static str = if huge { "C03|C04" } else { "C03" };
                 match kind {
-                    HKind::Bytes => ensure!(cap == n as usize, "C03", "bytes-capacity", "alloc_bytes({n}) returned capacity {cap}"),
+                    HKind::Bytes => ensure!(cap == n as usize, c03, "bytes-capacity", "alloc_bytes({n}) returned capacity {cap}"),
                     HKind::Aligned => {
                         // also for zero-sized T with an alignment: the statement quantifies over sizes 0..=64
-                        ensure!(off % talign == 0, "C03", "aligned-offset", "alloc_aligned_bytes::<{}>({n}) offset {off} not a multiple of {talign}", t.name);
-                        ensure!(cap as u64 >= tsize as u64 + n as u64, "C03", "aligned-capacity", "alloc_aligned_bytes::<{}>({n}) capacity {cap} < {}", t.name, tsize as u64 + n as u64);
+                        ensure!(off % talign == 0, c03, "aligned-offset", "alloc_aligned_bytes::<{}>({n}) offset {off} not a multiple of {talign}", t.name);
+                        ensure!(cap as u64 >= tsize as u64 + n as u64, c03, "aligned-capacity", "alloc_aligned_bytes::<{}>({n}) capacity {cap} < {}", t.name, tsize as u64 + n as u64);
                     }
                     HKind::Typed => {
                         ensure!(cap == tsize, "C03", "typed-capacity", "alloc::<{}>() capacity {cap} != size_of {tsize}", t.name);
@@ -1450,7 +1455,7 @@ impl<A: Flavor> World<A> {
         if self.remove_on_drop {
             if let Some(p) = &self.path {
                 let gone = !p.exists();
-                let should_be_gone = self.expected_unmounts > 0;
+                let should_be_gone = self.expected_unmounts > self.rod_base;
                 ensure!(gone == should_be_gone, "C13", "remove-on-drop-timing", "file marked remove-on-drop {} after {when} ({} release(s) of the backing memory expected so far)", if gone { "is gone" } else { "still exists" }, self.expected_unmounts);
             }
         }
@@ -1623,6 +1628,26 @@ impl<A: Flavor> World<A> {
         let target = Self::ref_rewind_target(ap, s0.allocated, d, s0.capacity);
         // the caller's obligations: nothing it still uses lies above the new cursor
         self.forget_above(target)?;
+        // (not while crash points are being recorded: a crash inside the round trip would persist the state of the open
+        // known finding - segments above the stored cursor - which the C06 histories must not contain)
+        if !raw && !self.mode.crash && s0.fl.iter().any(|n| n.0 as usize + 8 + n.1 as usize > target) {
+            // "changes nothing else" with a non-empty free list above the target: before the list is discarded (which
+            // the interpreter does so that nothing is ever allocated over a listed segment), rewind down and straight
+            // back up - no allocation in between, so the stale state is never used - and require that each of the two
+            // calls moved the cursor and nothing else, the free list in particular
+            let pre = self.snap();
+            guard("rewind", "C17", || unsafe { a.rewind(ap) })?;
+            let mid = self.snap();
+            let mut e = pre.clone();
+            e.allocated = target;
+            e.remaining = pre.capacity - target;
+            ensure!(mid.allocated == target, "C17", "rewind-target", "rewind({ap:?}) with allocated={} data_offset={d} capacity={}: cursor {} expected {target}", pre.allocated, pre.capacity, mid.allocated);
+            ensure!(mid == e, "C17", "rewind-side-effect", "rewind({ap:?}) over free-list segments changed more than the cursor: {pre:?} -> {mid:?}");
+            guard("rewind", "C17", || unsafe { a.rewind(ArenaPosition::Start(pre.allocated as u32)) })?;
+            let back = self.snap();
+            ensure!(back == pre, "C17", "rewind-side-effect", "rewind({ap:?}) and back to Start({}) is not the identity: {pre:?} -> {back:?}", pre.allocated);
+            self.classes.insert("rewind-round-trip-over-segments");
+        }
         if s0.fl.iter().any(|n| n.0 as usize + 8 + n.1 as usize > target) {
             if raw {
                 // the open known finding (DESIGN.md 11.2): whatever fails from here on in this history carries its signature
@@ -1933,6 +1958,15 @@ impl<A: Flavor> World<A> {
             self.cow = Some(sv);
         }
         self.classes.insert(["reopen-map_mut", "reopen-map_copy", "reopen-map", "reopen-map_copy_ro"][mode as usize]);
+        // C13: "a file marked remove-on-drop disappears exactly then" - also when the mark is set on an arena that was
+        // opened (writable, copy-on-write or read-only: the docs say the file goes even then) rather than created
+        if self.mode.count_unmount && self.cfg.magic % 4 == 3 && !self.remove_on_drop {
+            self.a().remove_on_drop(true);
+            self.remove_on_drop = true;
+            self.rod_base = self.expected_unmounts;
+            self.classes.insert("remove-on-drop");
+            self.classes.insert("remove-on-drop-set-after-reopen");
+        }
         if !file_state.fl.is_empty() && self.hs.iter().any(|h| h.cap > 0) && file_state.discarded > 0 {
             self.classes.insert("reopen-rich");
         }
